@@ -16,6 +16,9 @@ import Gotree.Lemmas.C17Distinct
 import Gotree.Lemmas.C17Aux
 import Gotree.Lemmas.C17Nodup
 import Gotree.Lemmas.C17CountSplits
+import Gotree.Lemmas.C17NoSingle
+import Gotree.Lemmas.C17HeapT
+import Gotree.Model.C17Cli
 
 namespace Gotree.C17
 open Gotree
@@ -71,6 +74,31 @@ theorem apply_wf (t t' : T) (r : NNI) (hpos : pposOK t = true) (h : r ∈ rearra
   · intro hnd
     exact (apply_tips t t' r hpos h ha).nodup_iff.mpr hnd
 
+/-- what C03's history invariant needs: an NNI relates the tree before and after by `RN`
+    (same number of children at the root; no single-child node afterwards if none before) -/
+theorem apply_RN (t t' : T) (r : NNI) (hpos : pposOK t = true) (h : r ∈ rearrangements t)
+    (ha : apply t r = some t') : RN t t' := by
+  obtain ⟨S, hs, hP⟩ := rearrangements_generic
+    (fun S r => ∀ S', applyLocal r.path.isEmpty r S = some S' → RN S S')
+    (by
+      intro path isRoot d1 p1 k1 j e d2 p2 u v cross site
+      have hr : (newNNI path isRoot p1 j p2 cross).path.isEmpty = isRoot := by
+        simp [newNNI, site.root]
+      rw [hr]
+      exact local_RN d1 cross site)
+    t hpos r h
+  exact RN.lift _ r.path t t' S hs ha hP
+
+/-- Applying a proposed rearrangement to ANY tree (binary or not) creates no single-child inner
+    node: `noSingleL t.kids → noSingleL t'.kids`, i.e. `T.noSingle` is kept. -/
+theorem apply_noSingle (t t' : T) (r : NNI) (hpos : pposOK t = true) (h : r ∈ rearrangements t)
+    (ha : apply t r = some t') (hn : noSingleL t.kids = true) : noSingleL t'.kids = true :=
+  (apply_RN t t' r hpos h ha).ns hn
+
+theorem apply_noSingle_tree (t t' : T) (r : NNI) (hpos : pposOK t = true) (h : r ∈ rearrangements t)
+    (ha : apply t r = some t') (hn : t.noSingle = true) : t'.noSingle = true :=
+  apply_noSingle t t' r hpos h ha hn
+
 /-- The same fact on the split list itself (`T.splits`: one entry per branch with the tips below
     it and its data), branch data included — what the canonical split set forgets: one inner
     branch `c` of `t` and one inner branch `c'` of `t'` carry the same data and define different
@@ -81,13 +109,14 @@ theorem apply_one_branch_apart (t t' : T) (r : NNI) (hpos : pposOK t = true) (hu
     Spec.OneBranchApart t.splits t'.splits := by
   obtain ⟨S, hs, hne, hP⟩ := rearrangements_generic
     (fun S r => S.kids ≠ [] ∧ ((leavesL S.kids).Nodup →
-      ∀ S', applyLocal r.path.isEmpty r S = some S' → RK S S' ∧ RS S S'))
+      ∀ S', applyLocal r.path.isEmpty r S = some S' →
+        RK S S' ∧ Apart (leavesL S.kids) (lowerLeaves S.kids (lowIdx r S)) r.path.isEmpty (splitsL S.kids) (splitsL S'.kids)))
     (by
       intro path isRoot d1 p1 k1 j e d2 p2 u v cross site
       have hr : (newNNI path isRoot p1 j p2 cross).path.isEmpty = isRoot := by
         simp [newNNI, site.root]
-      rw [hr]
-      refine ⟨?_, fun hnd S' hS' => ⟨local_RK d1 cross site S' hS', local_RS d1 cross site hnd S' hS'⟩⟩
+      rw [hr, lowIdx_newNNI path isRoot site.root]
+      refine ⟨?_, fun hnd S' hS' => ⟨local_RK d1 cross site S' hS', local_apart d1 cross site hnd S' hS'⟩⟩
       have := site.deg
       intro h0
       simp only [T.kids_node] at h0
@@ -98,7 +127,9 @@ theorem apply_one_branch_apart (t t' : T) (r : NNI) (hpos : pposOK t = true) (hu
   have hnd : (leavesL t.kids).Nodup := by
     unfold T.tipNames at hu
     exact (List.nodup_append.mp hu).2.1
-  exact (RKS_lift _ r.path t t' S hs ha (hP (hnd.sublist hsub))).2
+  obtain ⟨_, hA, _⟩ := apart_lift (leavesL S.kids) _ r.path.isEmpty _ r.path t t' S hs ha hnd
+    (hP (hnd.sublist hsub)) (fun x hx => hx)
+  exact hA.oneBranchApart
 
 /-- The split sets before and after, with the split that goes away named: it is the split of
     the central branch (the tips below its lower end), a non-trivial split of `t` that `t'` lacks. -/
@@ -374,7 +405,8 @@ theorem twin_one_branch_apart (t t₁ t₂ : T) (r : NNI) (hpos : pposOK t = tru
   obtain ⟨S, hs, hne, hP⟩ := rearrangements_generic
     (fun S r => S.kids ≠ [] ∧ ((leavesL S.kids).Nodup →
       ∀ S1 S2, applyLocal r.path.isEmpty { r with cross := false } S = some S1 →
-        applyLocal r.path.isEmpty { r with cross := true } S = some S2 → RL S1 S2 ∧ RS S1 S2))
+        applyLocal r.path.isEmpty { r with cross := true } S = some S2 →
+        RK S S1 ∧ RK S S2 ∧ ∃ cb, Apart (leavesL S.kids) cb r.path.isEmpty (splitsL S1.kids) (splitsL S2.kids)))
     (by
       intro path isRoot d1 p1 k1 j e d2 p2 u v cross site
       have hr : (newNNI path isRoot p1 j p2 cross).path.isEmpty = isRoot := by
@@ -384,7 +416,7 @@ theorem twin_one_branch_apart (t t₁ t₂ : T) (r : NNI) (hpos : pposOK t = tru
       have ht : { newNNI path isRoot p1 j p2 cross with cross := true } = newNNI path isRoot p1 j p2 true := rfl
       rw [hf, ht]
       refine ⟨?_, fun hnd S1 S2 hS1 hS2 =>
-        ⟨RL.of_RK (local_RK d1 false site S1 hS1) (local_RK d1 true site S2 hS2), local_twin d1 site hnd S1 S2 hS1 hS2⟩⟩
+        ⟨local_RK d1 false site S1 hS1, local_RK d1 true site S2 hS2, local_twin_apart d1 site hnd S1 S2 hS1 hS2⟩⟩
       have := site.deg
       intro h0
       simp only [T.kids_node] at h0
@@ -395,7 +427,37 @@ theorem twin_one_branch_apart (t t₁ t₂ : T) (r : NNI) (hpos : pposOK t = tru
   have hnd : (leavesL t.kids).Nodup := by
     unfold T.tipNames at hu
     exact (List.nodup_append.mp hu).2.1
-  exact (RLS_lift2 _ _ r.path t t₁ t₂ S hs h₁ h₂ (hP (hnd.sublist hsub))).2
+  have hloc := hP (hnd.sublist hsub)
+  -- the first neighbour has the same leaves as `t`
+  have hk1 : RK t t₁ := RK.lift _ r.path t t₁ S hs h₁ (fun S1 hS1 => by
+    cases hS2 : applyLocal r.path.isEmpty { r with cross := true } S with
+    | none =>
+      exfalso
+      have : ∀ (q : List Nat) (u : T) (S : T), subAt q u = some S → applyLocal r.path.isEmpty { r with cross := true } S = none →
+          modAt q (applyLocal r.path.isEmpty { r with cross := true }) u = none := by
+        intro q
+        induction q with
+        | nil => intro u S hs hn; simp only [subAt, Option.some.injEq] at hs; subst hs; simpa [modAt] using hn
+        | cons i q ih =>
+          intro u S hs hn
+          obtain ⟨d, pp, k⟩ := u
+          simp only [subAt] at hs
+          cases hki : k[i]? with
+          | none => simp [modAt, hki]
+          | some ec =>
+            obtain ⟨e, c⟩ := ec
+            simp only [hki] at hs
+            simp [modAt, hki, ih c S hs hn]
+      have h0 := this r.path t S hs hS2
+      rw [show modAt r.path (applyLocal r.path.isEmpty { r with cross := true }) t = apply t { r with cross := true } from rfl, h₂] at h0
+      cases h0
+    | some S2 => exact (hloc S1 S2 hS1 hS2).1)
+  have hnd1 : (leavesL t₁.kids).Nodup := hk1.leaves.nodup_iff.mpr hnd
+  obtain ⟨_, _, cb, hA⟩ := apart_lift2 (leavesL S.kids) r.path.isEmpty _ _ r.path t t₁ t₂ S hs h₁ h₂ hnd1
+    (fun S1 S2 hS1 hS2 => by
+      obtain ⟨k1, k2, hA⟩ := hloc S1 S2 hS1 hS2
+      exact ⟨RL.of_RK k1 k2, fun x hx => k1.leaves.mem_iff.mpr hx, hA⟩)
+  exact hA.oneBranchApart
 
 /-- The loop of `cmd/nni.go` (apply, look, undo, next — in enumeration order) leaves the tree
     unchanged and sees exactly the neighbours `apply t r`. -/
@@ -690,6 +752,90 @@ theorem count_rooted_fails_splits :
   have h := count_rooted_two_missing_splits witnessRooted (by decide) (by decide) (by decide) (by decide) (by decide)
   have h0 : (rearrangements witnessRooted).length = 0 := by decide
   omega
+
+/- ## `cmd/nni.go` -/
+
+/-- the command on well-formed input: every neighbour of every tree, in order, no error … -/
+theorem cliRun_ok : ∀ (ts : List T), (∀ t ∈ ts, pposOK t = true) →
+    cliRun (ts.map some) = (ts.flatMap fun t => (rearrangements t).filterMap (apply t), false)
+  | [], _ => rfl
+  | t :: ts, h => by
+    have ih := cliRun_ok ts (fun u hu => h u (by simp [hu]))
+    simp only [List.map_cons, cliRun, enumerate_unchanged t (h t (by simp)), ih, List.flatMap_cons]
+
+/-- … and with a record that is not a tree (commit 9333707): the neighbours of the trees before
+    it, then an error (exit status 1), nothing of what follows -/
+theorem cliRun_err (ts : List T) (rest : List (Option T)) (h : ∀ t ∈ ts, pposOK t = true) :
+    cliRun (ts.map some ++ none :: rest) = (ts.flatMap fun t => (rearrangements t).filterMap (apply t), true) ∧
+    cliExit (ts.map some ++ none :: rest) = 1 := by
+  have key : cliRun (ts.map some ++ none :: rest) = (ts.flatMap fun t => (rearrangements t).filterMap (apply t), true) := by
+    induction ts with
+    | nil => simp [cliRun]
+    | cons t ts ih =>
+      have := ih (fun u hu => h u (by simp [hu]))
+      simp only [List.map_cons, List.cons_append, cliRun, enumerate_unchanged t (h t (by simp)), this, List.flatMap_cons]
+  exact ⟨key, by simp [cliExit, key]⟩
+
+/- ## the pointer-level square (DESIGN §11, S1) -/
+
+/-- ★ One proved simulation square under `apply`.  For every rearrangement `Rearrange` proposes,
+    the six-node heap `H` that `apply` reads off the tree is the abstraction (`absH`) of a
+    well-formed pointer piece `p` (records with `neigh`/`br` slices and `left`/`right`, any other
+    neighbours `pre`/`post` of the outer nodes); running the Go statements of `nni.Apply` on `p`
+    (`applyP`) succeeds, keeps the pairing `neigh[i]`↔`br[i]`, symmetric adjacency and the number
+    of parent branches of each of the six nodes (at most one: the branches still point away from
+    the root), and the abstraction of the result is what `apply` computes; the Go statements of
+    `nni.Undo` (`undoP`) then give back the records of `p`. -/
+theorem apply_heap_square (t : T) (r : NNI) (hpos : pposOK t = true) (h : r ∈ rearrangements t) :
+    ∃ S H, subAt r.path t = some S ∧ extract S r.path.isEmpty r false = some H ∧
+      ∀ pre post : Ref → List Nat,
+        let p := mkP (slices1 r.i1 r.cross false) (slices2 r.i2 r.cross false) (upOf H) pre post
+        absH (datOf H) p = H ∧ pairing p = true ∧ symmetric p = true ∧
+        ∃ p', applyP p r.cross = some p' ∧ pairing p' = true ∧ symmetric p' = true ∧
+          (∀ x, incoming p' x = incoming p x ∧ incoming p x ≤ 1) ∧
+          applyH H r.cross = some (absH (datOf H) p') ∧
+          applyLocal r.path.isEmpty r S =
+            (if (absH (datOf H) p').oriented then some (rebuild (absH (datOf H) p')) else none) ∧
+          ∃ p'', undoP p' r.cross = some p'' ∧ p''.same p ∧ undoH (absH (datOf H) p') r.cross = some H := by
+  obtain ⟨S, hs, hF, S', ha, _⟩ := rearrangements_generic
+    (fun S r => (∀ H, extract S r.path.isEmpty r false = some H → Fresh H r.i1 r.i2 r.cross) ∧
+      ∃ S', applyLocal r.path.isEmpty r S = some S' ∧ undoLocal r.path.isEmpty r S' = some S)
+    (by
+      intro path isRoot d1 p1 k1 j e d2 p2 u v cross site
+      have hr : (newNNI path isRoot p1 j p2 cross).path.isEmpty = isRoot := by
+        simp [newNNI, site.root]
+      rw [hr]
+      exact ⟨extract_fresh d1 cross site, local_undo_apply d1 cross site⟩)
+    t hpos r h
+  -- `extract` succeeds, since `applyLocal` does
+  cases hH : extract S r.path.isEmpty r false with
+  | none => simp [applyLocal, hH] at ha
+  | some H =>
+    have hf := hF H hH
+    refine ⟨S, H, hs, hH, fun pre post => ?_⟩
+    have hup := upOf_cases H
+    have habs := absH_mkP hf pre post
+    obtain ⟨hpair, hsym⟩ := mkP_invariants r.i1 r.i2 hf.b1 hf.b2 r.cross false (upOf H) hup pre post
+    obtain ⟨hpair', hsym'⟩ := mkP_invariants r.i1 r.i2 hf.b1 hf.b2 r.cross true (upOf H) hup pre post
+    obtain ⟨p', hp', hsame'⟩ := applyP_mk r.i1 r.i2 hf.b1 hf.b2 r.cross (upOf H) hup pre post
+    obtain ⟨q, hq, hsameq⟩ := undoP_mk r.i1 r.i2 hf.b1 hf.b2 r.cross (upOf H) hup pre post
+    have hsq := applyP_absH (datOf H) r.i1 r.i2 hf.b1 hf.b2 r.cross (upOf H) hup pre post
+    have hsu := undoP_absH (datOf H) r.i1 r.i2 hf.b1 hf.b2 r.cross (upOf H) hup pre post
+    rw [habs] at hsq hsu
+    have habs' : absH (datOf H) p' = absH (datOf H) (mkP (slices1 r.i1 r.cross true) (slices2 r.i2 r.cross true) (upOf H) pre post) :=
+      same_absH _ hsame'
+    refine ⟨habs, hpair, hsym, p', hp', ?_, ?_, ?_, ?_, ?_, ?_⟩
+    · rw [same_pairing hsame']; exact hpair'
+    · rw [same_symmetric hsame']; exact hsym'
+    · intro x
+      rw [same_incoming hsame' x]
+      exact mkP_incoming r.i1 r.i2 hf.b1 hf.b2 r.cross (upOf H) hup pre post x
+    · rw [habs']; exact hsq
+    · simp only [applyLocal, hH, habs', hsq]
+    · -- `undoP` on `p'`: the same records as on the constructed piece after `Apply`
+      have hp'eq := same_eq hsame'
+      rw [hp'eq]
+      exact ⟨q, hq, hsameq, hsu⟩
 
 /-- calling `Apply` on an applied NNI changes nothing -/
 theorem obj_apply_applied (o : Obj) (t : T) (h : o.applied = true) : o.apply t = some (t, o) := by
